@@ -44,6 +44,7 @@ class World:
     def __init__(self, local_clocks=False, pub_hwm=None):
         self.now_ns = 1_700_000_000_000_000_000
         self.local_clocks = local_clocks
+        self.tick_ns = 100_000_000
         self.pub_hwm = pub_hwm          # override of PUB SNDHWM (messages per subscriber pipe), None = socket option
         self.bound = {}                 # normalised addr -> Socket (latest)
         self.links = []
@@ -131,6 +132,12 @@ class World:
             else:
                 self.now_ns = max(self.now_ns, dl)
             x.resume(timed_out=True)
+        elif kind == 'tick':
+            # a task waiting without a deadline (poll(None)): `tick_ns` of its time pass, nothing runs
+            if self.local_clocks:
+                x.clock += self.tick_ns
+            else:
+                self.now_ns += self.tick_ns
         else:
             raise ValueError(act)
 
